@@ -12,6 +12,10 @@ implementation's result; when no set does, the case is shrunk and tried again, a
 (to be looked at by hand: a mistake of the reference, a silent spot of the docs, or a new deviation).
 
 Run:   PYTHONPATH=/verif/harness:/repo /venv/bin/python /verif/harness/props/c01_docref.py [seed [ngrammars [ninputs]]]
+       (exit 0 when every disagreement has a signature listed in DEVIATIONS and every DEVIATIONS example / quotation replays)
+API:   run(chk_or_None, seed, ngrammars, ninputs) -> {'cases', 'agree', 'skipped', 'findings': {signature: {'count', 'example'}}}
+       run_corpus(chk_or_None, seed)  the fixed corpus (DEVIATIONS examples, probes, all pairs of element kinds)
+       ref_outcome(grammar_ir, text, start=None, quirks=())  the reference alone;  verify_deviations()  self-check
 """
 from __future__ import annotations
 
@@ -41,7 +45,9 @@ DOC_SILENT = [
     'when empty (`{[\'a\']}` on \'\' is [None]), a later iteration without progress fails as an iteration (ends the closure, or fails it '
     'when a cut was passed in that iteration)',
     'S06 value of one closure iteration / of a separator: nothing -> None, one element -> the element, several -> a list '
-    '(docs only show [e, s, e, ...])',
+    '(docs only show [e, s, e, ...]); a FIRST iteration without value gives a None element, a later one adds nothing unless a kept '
+    "separator stands before it (`{(?:'a')}` on 'a a' is [None], `','%{(?:'a')}` on 'a,a' is [None, ',', None]) - odd, but the docs "
+    'say nothing about iterations without value',
     'S07 names bound inside a closure body, a `(?: )` group or a lookahead: docs speak of group/optional/closure "transferred to the '
     'outer scope only on success"; nothing on `(?: )` and lookaheads. Implementation: closure iterations transfer, `(?: )` and '
     'lookaheads never bind (the name stays None)',
@@ -54,7 +60,10 @@ DOC_SILENT = [
     'S11 several overrides in one rule accumulate like a name bound several times (syntax.rst shows `ab: @:\'a\' {@:\'b\'}` without '
     'saying so); `@+:` after a plain `@:` appends',
     'S12 cut scoping belongs to property C05: the reference commits within option / optional / closure iteration / rule and treats a '
-    'group without alternatives as transparent (docs list "group" among the brackets that scope a cut)',
+    'group without alternatives as transparent, as the implementation does. NOT checked here, for C05 to judge: syntax.rst says '
+    '"The effect of ~ is scoped to the nearest enclosing brackets (group, optional, closure), the enclosing choice, or the enclosing '
+    "rule\" - by that sentence start = ('a' ~) 'b' | 'a' on 'a' would try the second option (the cut ended with its group); the "
+    'implementation fails',
     'S13 a join whose separator matched but whose next element did not: follows the documented equivalences '
     '(s%{e}+ == e {s ~ e} fails; s%{e} == s%{e}+|{} gives [] at the START position, dropping the elements already matched)',
     'S14 nameguard: docs say "if text is alphanumeric"; implementation asks for an identifier-like token (first char alphabetic). The '
@@ -64,6 +73,8 @@ DOC_SILENT = [
     'S16 a name bound to a value and later, in the same scope, to an optional that did not match, or the reverse: see DEVIATIONS '
     "['docref:name-rebound-none-is-order-dependent'] - the docs do not say whether None counts as an item, but the implementation's "
     'answer depends on the order, so no reading of the docs gives it',
+    'S17 where whitespace was skipped before a constant, `()` or `$`, the position stays after it (seen by a following pattern)',
+    'S18 the value bound by name:e / @:e when e contributes nothing (cut, `$`, lookahead, `(?: )`, unmatched optional) is None',
 ]
 
 # ---------------------------------------------------------------------------------------------------------------------
